@@ -310,9 +310,9 @@ StateOfItems(items) ==
       shapeOk |-> /\ \A i \in DOMAIN items : IsList(items[i]) /\ Len(items[i].c) > 0 /\ IsSym(items[i].c[1])
                   /\ \A i \in DOMAIN items : HeadSym(items[i]) = "=" => i \in A
                   /\ \A i \in F : AllSyms(items[i].c)
-                  /\ \A i \in A : AllSyms(items[i].c[2].c)
-                  \* no fluent assigned twice with different values
-                  /\ \A i, j \in A : FactOfTree(items[i].c[2]) = FactOfTree(items[j].c[2]) => items[i].c[3].v = items[j].c[3].v]
+                  /\ \A i \in A : AllSyms(items[i].c[2].c),
+      \* a fluent assigned twice with different values: PDDL gives this no meaning
+      conflict |-> \E i, j \in A : FactOfTree(items[i].c[2]) = FactOfTree(items[j].c[2]) /\ items[i].c[3].v # items[j].c[3].v]
 
 GoalOfTree(x) ==
   LET items == IF HeadSym(x) = "and" THEN Rest(x) ELSE <<x>>
@@ -330,6 +330,19 @@ ProblemOfTree(x) ==
       objs   |-> objs,
       init   |-> StateOfItems(init),
       goal   |-> GoalOfTree(goal)]
+
+\* rendering of a problem given as sequences (so that the order of the items in
+\* the text is a choice of the renderer):
+\*   P = [name, domain, objs : Seq(<<o,t>>), facts : Seq(<<p,args>>),
+\*        fls : Seq(<<f,args,val>>), glits : Seq(<<p,args>>), gcmps : Seq(Formula)]
+TreeOfAssign(x) == Li(<<Sy("="), Li(<<Sy(x[1])>> \o [i \in DOMAIN x[2] |-> Sy(x[2][i])]), Nu(x[3])>>)
+TreeOfProblem(P, style) ==
+  Li(<<Sy("define"), Li(<<Sy("problem"), Sy(P.name)>>), Li(<<Sy(":domain"), Sy(P.domain)>>),
+       Li(<<Sy(":objects")>> \o TLTree(P.objs, style)),
+       Li(<<Sy(":init")>> \o [i \in DOMAIN P.facts |-> Li(<<Sy(P.facts[i][1])>> \o [j \in DOMAIN P.facts[i][2] |-> Sy(P.facts[i][2][j])])]
+                          \o [i \in DOMAIN P.fls |-> TreeOfAssign(P.fls[i])]),
+       Li(<<Sy(":goal"), Li(<<Sy("and")>> \o [i \in DOMAIN P.glits |-> Li(<<Sy(P.glits[i][1])>> \o [j \in DOMAIN P.glits[i][2] |-> Sy(P.glits[i][2][j])])]
+                                       \o [i \in DOMAIN P.gcmps |-> TreeOfFormula(P.gcmps[i])])>>)>>)
 
 \* serialized state:  (:init item*)  or  (:state item*)
 StateOfTree(x) == [hdr |-> HeadSym(x), st |-> StateOfItems(Rest(x))]
